@@ -18,6 +18,7 @@ import itertools
 import inspect
 import os
 import pathlib
+import types
 import typing as t
 
 from typing_extensions import Self, TypeAlias
@@ -222,8 +223,8 @@ def make_converter(ty: IntoConverter, handlers: ConverterHandlers = ConverterHan
     if base is t.Annotated:
         return _annotated_converter(args[0], args[1:], handlers=handlers)
 
-    # union converter
-    if base is t.Union:
+    # union converter (typing.Union[X, Y], or the PEP 604 spelling X | Y)
+    if base is t.Union or base is getattr(types, 'UnionType', t.Union):
         return UnionConverter(args, handlers=handlers)
     # literal converter
     if base is t.Literal:
